@@ -300,7 +300,8 @@ def correspondence(prop, fams, bins, modelrun, work):
                             fam_mis += 1
                             if len(mismatches) < 20:
                                 mismatches.append({"family": name, "profile": prof, "line": k + 1, "case": c.strip(),
-                                                   "implementation": a.strip(), "model": b.strip()})
+                                                   "implementation": a.strip(), "model": b.strip(),
+                                                   "pinned": bool(fam.get("pinned"))})
                     # length mismatch
                 la = sum(1 for _ in open(impl_out))
                 lb = sum(1 for _ in open(model_out))
@@ -459,7 +460,13 @@ def main(argv):
     known_lines = []
     if broken:
         log("NOT VERIFIED: " + "; ".join("%s: %s" % (s, d[:300]) for s, d in broken))
-        found = run_oracle(prop, bins, seed, tier) if bins else []
+        # a disagreement on a family whose outputs the theorems pin down completely IS a failing input:
+        # the model's answer is proved to be what the property demands on that input
+        found = [{"case": m["case"], "profile": m["profile"], "family": m["family"],
+                  "what": "implementation output differs from the output of the model, which the property's theorems pin down on this input",
+                  "expected": m["model"], "actual": m["implementation"]} for m in mismatches if m.get("pinned")]
+        if len(found) < 3 and bins:
+            found += run_oracle(prop, bins, seed, tier)
         # drop failing inputs that are listed known findings
         fresh = []
         for f in found:
